@@ -218,3 +218,5 @@ NOT_APPLICABLE = [
     for p in ALL
     if p not in CHECKS
 ]
+
+ENGINES[0]["serves_properties"] = sorted(CHECKS)
